@@ -319,7 +319,13 @@ _orig_get_session = db_base._get_session
 def _get_session():
     a = cur_act()
     if a is not None:
-        if a.dirty:
+        if getattr(a, 'db_faulted', False) and \
+                not getattr(a, 'db_fault_retried', False):
+            # the retry after an injected deadlock follows at once (events
+            # between the two attempts are not explored): the command's
+            # step stays one step for the oracles
+            a.db_fault_retried = True
+        elif a.dirty:
             a.dirty = False
             yield_point('tx')
         a.dirty = True
@@ -359,6 +365,10 @@ def _rp_point(what):
     raw_conn().execute('BEGIN')
 
 
+CMD_METHODS = ('.stop_workflow', '.pause_workflow', '.resume_workflow',
+               '.rerun_workflow')
+
+
 def _install_rp():
     from sqlalchemy import event
     eng = db_base.get_engine()
@@ -391,6 +401,25 @@ def _install_rp():
         a = cur_act()
         if a is not None:
             a.tx_open = False
+
+    from mistral.db.v2.sqlalchemy import api as sa_api
+    orig_commit = sa_api.commit_tx
+
+    def commit_tx():
+        a = cur_act()
+        if a is not None and W.extra.get('cmd_db_fault') and \
+                a.kind == 'msg' and not getattr(a, 'db_faulted', False) \
+                and any(m in a.desc for m in CMD_METHODS):
+            # injected fault: the first commit of an operator command is
+            # refused by the database, which rolls the transaction back and
+            # reports a deadlock; the engine promises to retry such a
+            # transaction transparently (db_utils.retry_on_db_error)
+            a.db_faulted = True
+            sa_api.rollback_tx()
+            from oslo_db import exception as db_exc
+            raise db_exc.DBDeadlock()
+        return orig_commit()
+    sa_api.commit_tx = commit_tx
 
     from mistral.db.sqlalchemy import sqlite_lock
     orig = sqlite_lock.acquire_lock
